@@ -118,3 +118,65 @@ pub fn c04(o: &Opts) -> Outcome {
     }
     Outcome { cases, witness: None }
 }
+
+/// C14 (mmap path): file size == header + records x row length, every row is the record's row, no byte unwritten
+fn c14_one(recs: &[Vec<u8>], k: usize, delim: &str, header: bool, threads: usize) -> Option<Vec<(String, String)>> {
+    let out = run_oligo(recs, k, true, threads, delim, header, None);
+    let why = match out {
+        Err(e) => e,
+        Ok(text) => {
+            let kcount = (0..pow4(k)).filter(|&x| is_canon(x, k)).count();
+            let row_len = kcount * 8 + (kcount - 1) * delim.len() + 1;
+            let mut body = text.as_str();
+            let mut hdr_len = 0;
+            if header {
+                let want: Vec<String> = (0..pow4(k)).filter(|&x| is_canon(x, k)).map(|x| text_of(x, k)).collect();
+                let h = want.join(delim) + "\n";
+                if !text.starts_with(&h) { return Some(vec![("k".into(), k.to_string()), ("delim".into(), delim.into()), ("why".into(), "header line missing or wrong".into())]); }
+                hdr_len = h.len();
+                body = &text[h.len()..];
+            }
+            if text.len() != hdr_len + recs.len() * row_len {
+                format!("file size {} != header {} + {} records x row length {}", text.len(), hdr_len, recs.len(), row_len)
+            } else if text.bytes().any(|b| b == 0) {
+                "unwritten (NUL) bytes in the mapped file".to_string()
+            } else {
+                let mut w = String::new();
+                for (i, r) in recs.iter().enumerate() {
+                    let line = &body[i * row_len..(i + 1) * row_len];
+                    if !line.ends_with('\n') { w = format!("row {} does not end its slot with a newline", i); break; }
+                    if let Err(e) = row_matches(&line[..row_len - 1], r, k, true, delim) { w = format!("row {}: {}", i, e); break; }
+                }
+                w
+            }
+        }
+    };
+    if why.is_empty() { None } else {
+        Some(vec![("k".into(), k.to_string()), ("delim".into(), delim.to_string()), ("header".into(), header.to_string()),
+                  ("threads".into(), threads.to_string()), ("records".into(), recs.iter().map(|r| show(r)).collect::<Vec<_>>().join("|")), ("why".into(), why)])
+    }
+}
+
+pub fn c14(o: &Opts) -> Outcome {
+    let mut cases = 0u64;
+    if let Some(inp) = &o.input {
+        let recs: Vec<Vec<u8>> = inp["records"].split('|').map(unshow).collect();
+        return Outcome { cases: 1, witness: c14_one(&recs, inp["k"].parse().unwrap(), &inp["delim"], inp["header"] == "true", inp["threads"].parse().unwrap()) };
+    }
+    let mut rng = Rng(o.seed.wrapping_mul(0x9E3779B97F4A7C15) | 1);
+    // delimiters that keep a failing write physically inside the last mapped page first
+    for delim in ["", " ", ",", "\t", "ab", ";;;"] {
+        for k in 1..=3usize {
+            for header in [false, true] {
+                for nrec in [1usize, 2, 3] {
+                    let recs: Vec<Vec<u8>> = (0..nrec).map(|_| { let l = 1 + rng.below(40) as usize; random_seq(&mut rng, l, 20).iter().map(|&b| if b < 0x21 || b > 0x7e || b == b'>' { b'N' } else { b }).collect() }).collect();
+                    for threads in [1usize, 4] {
+                        cases += 1;
+                        if let Some(w) = c14_one(&recs, k, delim, header, threads) { return Outcome { cases, witness: Some(w) }; }
+                    }
+                }
+            }
+        }
+    }
+    Outcome { cases, witness: None }
+}
